@@ -158,6 +158,8 @@ def gen(r, tier, i):
         # a second variable with the zero divider and an unusual (legal) mother value
         'z2': r.choice([5, 0.5, 'inf', '-inf', [1, 2], 'abc', {'k': 1}, None, True]),
         'sv': r.randint(1, 99),
+        # a second set_value variable whose configured value is itself a sequence / dictionary (index into SV2)
+        'sv2': r.randrange(5),
         'nodiv': r.randint(0, 99),
         'fnv': r.randint(10, 99),
         'grp': {'a': r.randint(1, 99), 'b': r.randint(1, 99)},
@@ -184,6 +186,9 @@ def gen(r, tier, i):
 
 
 # ------------------------------------------------------------------ execution
+
+SV2 = [[0.0, 0.0], (1, 2), {'a': 1}, [1, 2, 3], 'ab']
+
 
 def vals(t, Process):
     if isinstance(t, dict):
@@ -215,6 +220,8 @@ def run(spec):
             'z': {'_default': 0, '_divider': 'zero'},
             'z2': {'_default': 1.5, '_updater': 'set', '_divider': 'zero'},
             'sv': {'_default': 0, '_divider': {'divider': 'set_value', 'config': {'value': 77}}},
+            'sv2': {'_default': 'unset', '_updater': 'set',
+                    '_divider': {'divider': 'set_value', 'config': {'value': copy.deepcopy(SV2[m.get('sv2', 0)])}}},
             'nodiv': {'_default': 0},
             'fnv': {'_default': 0, '_divider': {'divider': fn_divider, 'topology': {'x': ('..', 'z')}}},
             'grp': {'_divider': branch_divider, 'a': {'_default': 0}, 'b': {'_default': 0}},
@@ -470,6 +477,9 @@ def relations(V, mb, d1, d2, init1, init2, spec, mother):
     chk('relation.zero', 'z2', _same(d1.get('z2'), 0) and _same(d2.get('z2'), 0))
     if free('sv'):
         chk('relation.set_value', 'sv', d1['sv'] == 77 and d2['sv'] == 77)
+    if 'sv2' in mb:
+        want = SV2[spec['mother'].get('sv2', 0)]
+        chk('relation.set_value', 'sv2', _same(d1.get('sv2'), want) and _same(d2.get('sv2'), want))
     a, b, mm = int(d1['env_n']), int(d2['env_n']), int(mb['env_n'])
     chk('relation.outside_declared', 'env_n', a + b == mm and abs(a - b) <= 1)
     chk('relation.outside_declared', 'env_tag', d1['env_tag'] == 'mother' == d2['env_tag'])
